@@ -347,6 +347,58 @@ func H_C04_merged_range_keeps_what_sources_kept() {
 	vpAssert(EvaluateMinMaxCondition(m, c), "C04: merged block pruned although a source block was kept")
 }
 
+// The same for the function Merge really calls on the blocks it combines (merge.go:
+// mergeMinMaxIndexes, over whole key maps): the merged block's range for every key covers the range
+// either source recorded for it, no key is lost or invented, and the sources' maps are left alone.
+//
+//vp:bounds two source blocks whose key sets are drawn from {u, v} (each key present or absent in each block), arbitrary int64 ranges with Min<=Max
+func H_C11_merged_block_ranges_cover_both_sources() {
+	b := &BloomSearchEngine{}
+	keys := []string{"u", "v"}
+	mk := func() map[string]MinMaxIndex {
+		m := map[string]MinMaxIndex{}
+		for _, k := range keys {
+			if nondetBool() {
+				x := MinMaxIndex{Min: nondetInt64(), Max: nondetInt64()}
+				vpAssume(x.Min <= x.Max)
+				m[k] = x
+			}
+		}
+		return m
+	}
+	i1, i2 := mk(), mk()
+	n1, n2 := len(i1), len(i2)
+	var before [2][2]MinMaxIndex
+	for j, k := range keys {
+		before[0][j], before[1][j] = i1[k], i2[k]
+	}
+	m := b.mergeMinMaxIndexes(i1, i2)
+	for j, k := range keys {
+		a, okA := i1[k]
+		c, okC := i2[k]
+		r, okR := m[k]
+		vpAssert(okR == (okA || okC), "C11/C12: merging two blocks lost or invented a minmax key")
+		if okA {
+			vpAssert(r.Min <= a.Min && r.Max >= a.Max, "C11: the merged block's minmax range does not cover the first source block's range (rows fall outside their block's range)")
+		}
+		if okC {
+			vpAssert(r.Min <= c.Min && r.Max >= c.Max, "C11: the merged block's minmax range does not cover the second source block's range (rows fall outside their block's range)")
+		}
+		if okA && okC {
+			lo, hi := a.Min, a.Max
+			if c.Min < lo {
+				lo = c.Min
+			}
+			if c.Max > hi {
+				hi = c.Max
+			}
+			vpAssert(r.Min == lo && r.Max == hi, "C24: the merged range is wider than the union of its sources")
+		}
+		vpAssert(i1[k] == before[0][j] && i2[k] == before[1][j], "C11: merging changed a source block's recorded range")
+	}
+	vpAssert(len(i1) == n1 && len(i2) == n2, "C11: merging changed a source block's key set")
+}
+
 // Widening an index never turns "kept" into "pruned" (monotonicity; this is what makes the
 // inductive argument over many rows/merges go through).
 func H_C04_widening_is_monotone() {
